@@ -1,5 +1,6 @@
 //! vcore: shared machinery for the property checks of busstoptaktik/geodesy.
 pub mod engine;
+pub mod fuzzing;
 pub mod geo;
 pub mod gridctx;
 pub mod guard;
